@@ -14,6 +14,7 @@
 package fschannel
 
 import (
+	"bytes"
 	"fmt"
 	"os"
 	"time"
@@ -93,31 +94,40 @@ func (f *rotateFile) Write(p []byte) (int, error) {
 	written := 0
 
 	for f.pos+int64(len(p)) > f.maxSize {
-		j := f.maxSize - int64(f.pos)
+		// the longest run of whole lines that still fits in this file
+		j := -1
+		if space := f.maxSize - f.pos; space > 0 {
+			j = bytes.LastIndexByte(p[:space], '\n')
+		}
 
-		for ; j > 0; j-- {
-			// line endings windows?
-			if p[j] == '\n' {
-				break
+		if j >= 0 {
+		} else if f.pos > 0 {
+			// not even the first line fits: continue in a fresh file
+			if err := f.rotate(); err != nil {
+				return written, err
 			}
+
+			continue
+		} else if j = bytes.IndexByte(p, '\n'); j < 0 {
+			// a single line larger than the file gets a file of its own
+			break
 		}
 
-		n, err := f.f.Write(p[:j])
-		if err != nil {
-			return n, err
-		}
-
+		n, err := f.f.Write(p[:j+1])
 		written += n
-
-		// rotate
-		if err := f.rotate(); err != nil {
+		f.pos += int64(n)
+		if err != nil {
 			return written, err
 		}
 
-		// skip \n
-		written += 1
-
 		p = p[j+1:]
+		if len(p) == 0 {
+			return written, nil
+		}
+
+		if err := f.rotate(); err != nil {
+			return written, err
+		}
 	}
 
 	n, err := f.f.Write(p)
